@@ -199,8 +199,52 @@ fn run_ops<A: Alphabet, C: StrictlyPositive + ArrayLength, S: StripeWith<A, C>>(
     (obs.join(" ; "), verdict, nops >= 2 && wrapped)
 }
 
+/// ISA validation (DESIGN.md §3.3): execute one rearranging intrinsic on this CPU.
+/// case: c04isa <unpack e hi | perm imm> <32 bytes of a> <32 bytes of b>   answer: 32 bytes
+#[cfg(target_arch = "x86_64")]
+fn exec_isa(t: &[&str]) -> String {
+    use std::arch::x86_64::*;
+    let (kind, p1, p2) = (t[1], t[2].parse::<i32>().unwrap(), t[3].parse::<i32>().unwrap());
+    let a: Vec<u8> = t[4..36].iter().map(|x| x.parse().unwrap()).collect();
+    let b: Vec<u8> = t[36..68].iter().map(|x| x.parse().unwrap()).collect();
+    let mut out = [0u8; 32];
+    if !std::is_x86_feature_detected!("avx2") {
+        return "no-avx2".into();
+    }
+    #[target_feature(enable = "avx2")]
+    unsafe fn go(kind: &str, p1: i32, p2: i32, a: &[u8], b: &[u8], out: &mut [u8; 32]) {
+        let va = _mm256_loadu_si256(a.as_ptr() as *const __m256i);
+        let vb = _mm256_loadu_si256(b.as_ptr() as *const __m256i);
+        let r = match (kind, p1, p2) {
+            ("unpack", 1, 0) => _mm256_unpacklo_epi8(va, vb),
+            ("unpack", 1, 1) => _mm256_unpackhi_epi8(va, vb),
+            ("unpack", 2, 0) => _mm256_unpacklo_epi16(va, vb),
+            ("unpack", 2, 1) => _mm256_unpackhi_epi16(va, vb),
+            ("unpack", 4, 0) => _mm256_unpacklo_epi32(va, vb),
+            ("unpack", 4, 1) => _mm256_unpackhi_epi32(va, vb),
+            ("unpack", 8, 0) => _mm256_unpacklo_epi64(va, vb),
+            ("unpack", 8, 1) => _mm256_unpackhi_epi64(va, vb),
+            ("perm", 0x20, _) => _mm256_permute2x128_si256(va, vb, 0x20),
+            ("perm", 0x31, _) => _mm256_permute2x128_si256(va, vb, 0x31),
+            ("perm", 0x02, _) => _mm256_permute2x128_si256(va, vb, 0x02),
+            ("perm", 0x13, _) => _mm256_permute2x128_si256(va, vb, 0x13),
+            ("perm", 0x08, _) => _mm256_permute2x128_si256(va, vb, 0x08),
+            ("perm", 0x81, _) => _mm256_permute2x128_si256(va, vb, 0x81),
+            ("perm", 0x30, _) => _mm256_permute2x128_si256(va, vb, 0x30),
+            ("perm", 0x21, _) => _mm256_permute2x128_si256(va, vb, 0x21),
+            _ => panic!("unsupported isa case"),
+        };
+        _mm256_storeu_si256(out.as_mut_ptr() as *mut __m256i, r);
+    }
+    unsafe { go(kind, p1, p2, &a, &b, &mut out) };
+    join(out.iter())
+}
+
 pub fn exec(line: &str) -> (String, Option<Result<(), String>>, bool) {
     let t: Vec<&str> = line.split_whitespace().collect();
+    if t[0] == "c04isa" {
+        return (exec_isa(&t), None, false);
+    }
     assert_eq!(t[0], "c04");
     let (alpha, c) = (t[1], t[2]);
     let ops = &t[3..];
@@ -265,6 +309,27 @@ pub fn generate(cfg: &Cfg) -> Vec<String> {
     let mut rng = Rng::new(cfg.seed ^ 0xC04);
     let mut cases = Vec::new();
     let backends32 = ["generic", "avx2", "disp-generic", "disp-sse2", "disp-avx2"];
+    // ISA validation: every rearranging intrinsic of the striping network on all-distinct labellings
+    // (which determine a data-independent rearrangement completely) and on random bytes
+    for round in 0..6 {
+        let mut ops: Vec<(String, i32, i32)> = Vec::new();
+        for e in [1, 2, 4, 8] {
+            for hi in [0, 1] {
+                ops.push(("unpack".into(), e, hi));
+            }
+        }
+        for imm in [0x20, 0x31, 0x02, 0x13, 0x08, 0x81, 0x30, 0x21] {
+            ops.push(("perm".into(), imm, 0));
+        }
+        for (k, p1, p2) in ops {
+            let (a, b): (Vec<usize>, Vec<usize>) = if round == 0 {
+                ((0..32).collect(), (32..64).collect())
+            } else {
+                ((0..32).map(|_| rng.below(256)).collect(), (0..32).map(|_| rng.below(256)).collect())
+            };
+            cases.push(format!("c04isa {} {} {} {} {}", k, p1, p2, join(a.iter()), join(b.iter())));
+        }
+    }
     for (alpha, k) in [("dna", 5usize), ("protein", 21usize)] {
         // boundary stream: every length of the grid, fresh + reused buffer, then wraps
         for &l in &lengths(cfg.thorough) {
@@ -318,7 +383,11 @@ pub fn run(cfg: &Cfg) {
         out.announce(c);
         let (ans, o, nt) = exec(c);
         let t: Vec<&str> = c.splitn(4, ' ').collect();
-        out.stat(&format!("{}/C{}", t[1], t[2]));
+        if t[0] == "c04isa" {
+            out.stat("isa-validation");
+        } else {
+            out.stat(&format!("{}/C{}", t[1], t[2]));
+        }
         for b in ["generic", "avx2", "disp-generic", "disp-sse2", "disp-avx2"] {
             if c.contains(&format!(" {} ", b)) {
                 out.stat(&format!("backend/{}", b));
